@@ -992,3 +992,75 @@ def r01_11_trusted_packings(ctx: Ctx) -> RuleResult:
             else:
                 rr.fail(f.qual, f"packs day `{d_txt}` without validation or a days-in-month bound: in calendars with short months (Coptic month 13, Badi) a non-existent date is built", ctx.loc(f, c))
     return rr
+
+
+# ------------------------------------------------------------------------------------------- R01.13 generic conversion vs hooks
+
+
+@rule("C01")
+def r01_13_days_since_epoch_uses_hooks(ctx: Ctx) -> RuleResult:
+    """date -> day number: for every calculator, year kind and month, `_get_days_since_epoch((y, m, d))` evaluates to
+    start_of_year(y) + days_from_start_of_year_to_start_of_month(y, m) + d - 1, with the year start replaced by a symbolic base and
+    the month offset taken from the calculator's own hook (R01.5 decides the hook against the month lengths).  A shortcut in the
+    generic code that is right for calendars whose month 1 starts the year is wrong for the Hebrew scriptural numbering."""
+    rr = RuleResult("R01.13", "date -> day number is year start + the calculator's own month offset + day - 1 for every calculator, year kind and month (abstract evaluation of _get_days_since_epoch against the month-offset hook)", min_instances=150)
+    M = ctx.M
+    S = 10_000_000
+    done = set()
+
+    def exact(rets) -> int | None:
+        vals = set()
+        for v, _ in rets:
+            if isinstance(v, Iv) and v.lo == v.hi:
+                vals.add(int(v.lo))
+            elif isinstance(v, Iv) and v.lo == -INF and v.hi == INF and len(rets) > 1:
+                continue  # a path through per-year tables filled at construction (Gregorian 1900-2100 fast path; decided by R01.14): the arithmetic paths are compared
+            else:
+                return None
+        return vals.pop() if len(vals) == 1 else None
+
+    for ci in calculator_instances(ctx):
+        key = ci.label if ci.cls == "_HebrewYearMonthDayCalculator" else ci.cls
+        if key in done:
+            continue
+        done.add(key)
+        cls = M.cls(ci.cls)
+        f = M.find_method(cls, "_get_days_since_epoch")
+        if f is None:
+            raise AnalysisError(f"{ci.cls}._get_days_since_epoch missing")
+        pn = [p.arg for p in f.value_params][0]
+        for label, stubs0 in year_kinds(ctx, ci.cls):
+            stubs = dict(stubs0)
+            stubs["*._get_start_of_year_in_days"] = lambda a, k, r: Iv(S, S)
+            so = Obj(ci.cls, dict(ci.obj.fields))
+            _, r = _call_method(ctx, cls, "_get_months_in_year", so, {"year": SYMBOLIC_YEAR}, stubs)
+            miy = _const(r[0][0]) if r else None
+            if miy is None:
+                rr.inst()
+                rr.undecided.append(f"{key}[{label}]: month count not constant")
+                continue
+            for m in range(1, miy + 1):
+                rr.inst()
+                _, r2 = _call_method(ctx, cls, "_get_days_from_start_of_year_to_start_of_month", so, {"year": SYMBOLIC_YEAR, "month": Iv(m, m)}, stubs)
+                off = exact(r2)
+                day = 7
+                ymd = Obj("_YearMonthDay", {"_year": SYMBOLIC_YEAR, "_month": Iv(m, m), "_day": Iv(day, day)})
+                _, r3 = _call_method(ctx, cls, "_get_days_since_epoch", so, {pn: ymd}, stubs)
+                rr.states += 2
+                got = exact(r3)
+                if off is None or got is None:
+                    # month offsets that depend on per-year data (Um Al Qura) or an own implementation not based on the year start (Badi)
+                    los = [v.lo for v, _ in r3 if isinstance(v, Iv)]
+                    his = [v.hi for v, _ in r3 if isinstance(v, Iv)]
+                    olo = [v.lo for v, _ in r2 if isinstance(v, Iv)]
+                    ohi = [v.hi for v, _ in r2 if isinstance(v, Iv)]
+                    if los and olo and min(los) > -INF and max(his) < INF and (min(los) != S + min(olo) + day - 1 or max(his) != S + max(ohi) + day - 1):
+                        rr.fail(f.qual, f"{key}[{label}] month {m} day {day}: day number is year start + [{min(los) - S}, {max(his) - S}], the month-offset hook gives [{min(olo)}, {max(ohi)}] + {day - 1}", ctx.loc(f))
+                    else:
+                        rr.undecided.append(f"{key}[{label}] month {m}: not a constant under abstract evaluation")
+                    continue
+                if got == S + off + day - 1:
+                    rr.ok()
+                else:
+                    rr.fail(f.qual, f"{key}[{label}] month {m} day {day}: day number is year start {got - S:+d}, but the calculator's month offset is {off} (+ {day - 1} days): date -> day number disagrees with day number -> date", ctx.loc(f))
+    return rr
